@@ -1,6 +1,11 @@
 package harness
 
-import "verif/harness/ref"
+import (
+	"strconv"
+	"strings"
+
+	"verif/harness/ref"
+)
 
 // Per-check configuration of the history walks (history.go): which fields
 // besides the Decimal operands may be varied, and sibling functions for the
@@ -19,6 +24,8 @@ func init() {
 	c20.HistoryFields("Default")
 	c20conc.NoHistory() // its argument already is a list of calls
 	c19.HistorySiblings(c19Siblings)
+	c07.HistorySiblings(c07Siblings)
+	c10fromrat.HistorySiblings(c10FromRatSiblings)
 }
 
 // c19Siblings keeps the relation the cohort check is about (X and X2 encode one
@@ -48,6 +55,73 @@ func c19Siblings(a c19Args) []c19Args {
 		if ok1 && ok2 {
 			add(func(b *c19Args) { b.X, b.X2 = x, x2 })
 		}
+	}
+	return out
+}
+
+// c07Siblings: the same value under another precision or verb (a digit cache keyed by the value must not remember
+// a rounding), and other values under the same spec.
+func c07Siblings(a c07Args) []c07Args {
+	var out []c07Args
+	for _, s := range dSiblings(a.V) {
+		b := a
+		b.V = s
+		out = append(out, b)
+	}
+	spec := a.Spec
+	if spec == "" {
+		return out
+	}
+	verb := spec[len(spec)-1]
+	body := spec[:len(spec)-1]
+	for _, v := range []byte("eEfFgG") {
+		if v != verb {
+			b := a
+			b.Spec = body + string(v)
+			out = append(out, b)
+		}
+	}
+	head, prec, has := body, 0, false
+	if i := strings.LastIndexByte(body, '.'); i >= 0 {
+		if p, err := strconv.Atoi(body[i+1:]); err == nil || body[i+1:] == "" {
+			head, prec, has = body[:i], p, true
+		} else {
+			return out
+		}
+	}
+	with := func(p int) {
+		b := a
+		b.Spec = head + "." + strconv.Itoa(p) + string(verb)
+		out = append(out, b)
+	}
+	if has {
+		for _, p := range []int{prec + 1, prec - 1, prec + 7, prec / 2} {
+			if p >= 0 && p <= 40 && p != prec {
+				with(p)
+			}
+		}
+		b := a
+		b.Spec = head + string(verb) // no precision: shortest / default
+		out = append(out, b)
+	} else {
+		with(2)
+		with(17)
+		with(34)
+	}
+	return out
+}
+
+// c10FromRatSiblings: the same numerator over other denominators (integer-valued, terminating, repeating) and the
+// reciprocal, so that an exact conversion follows an inexact one and the other way round.
+func c10FromRatSiblings(a c10FromRatArgs) []c10FromRatArgs {
+	out := []c10FromRatArgs{
+		{a.Num, "1"}, {a.Num, "3"}, {a.Num, "7"}, {a.Num, "8"}, {a.Num, "1000"},
+		{"1", a.Den}, {"2", "3"}, {a.Den, a.Num},
+	}
+	if strings.HasPrefix(a.Num, "-") {
+		out = append(out, c10FromRatArgs{a.Num[1:], a.Den})
+	} else {
+		out = append(out, c10FromRatArgs{"-" + a.Num, a.Den})
 	}
 	return out
 }
